@@ -24,7 +24,7 @@
       `C15_cut_area_conserved_inner` (the signed areas of the new triangles add up to the old ones).
   (e) findings: `C15_D9_witness` (swap_edge on unit_triangles(1) moves two corners and halves the area) with
       `C15_swap_area_partial` (the specified retriangulation conserves the area when no coordinate moves);
-      `C15_D15a_witness` … `C15_D15e_witness` (`decide +kernel` on the smallest meshes showing each finding).
+      `C15_D15a_witness` … `C15_D15e_witness`, `C15_D15g_witness` (`decide +kernel` on small meshes showing each finding).
 
   NOT PROVED (validated on every case by the oracle of tools/props/c15.py)
   * that a successful `collapse_edge` only flags free darts and only sews non-null darts (the two side
@@ -589,48 +589,48 @@ theorem InvJ.inUse {m : Map X} (h : InvJ n u m) {d : Nat} (hd : Live n u d) : C0
 def KeepsJ (n : Nat) (u0 : Array Bool) {α : Type} (p : P X α) : Prop :=
   ∀ (m m' : Map X) (a : α), InvJ n u0 m → run p m = (.ok a, m') → InvJ n u0 m'
 
-namespace KeepsJ
+section
 variable {α β : Type}
 
-theorem pure (a : α) : KeepsJ n u (pure a : P X α) := by
+theorem KeepsJ.pure (a : α) : KeepsJ n u (pure a : P X α) := by
   intro m m' b h hr; simp at hr; rw [← hr.2]; exact h
 
-theorem abort (e : Err) : KeepsJ n u (HC.abort e : P X α) := by
+theorem KeepsJ.abort (e : Err) : KeepsJ n u (HC.abort e : P X α) := by
   intro m m' b _ hr; simp at hr
 
-theorem panic : KeepsJ n u (Prog.panic : P X α) := by
+theorem KeepsJ.panic : KeepsJ n u (Prog.panic : P X α) := by
   intro m m' b _ hr; simp at hr
 
-theorem retry : KeepsJ n u (Prog.retry : P X α) := by
+theorem KeepsJ.retry : KeepsJ n u (Prog.retry : P X α) := by
   intro m m' b _ hr; simp at hr
 
-theorem bind {p : P X α} {f : α → P X β} (hp : KeepsJ n u p) (hf : ∀ a, KeepsJ n u (f a)) :
+theorem KeepsJ.bind {p : P X α} {f : α → P X β} (hp : KeepsJ n u p) (hf : ∀ a, KeepsJ n u (f a)) :
     KeepsJ n u (p.bind f) := by
   intro m m' b h hr
   obtain ⟨a, m1, h1, h2⟩ := run_bind_ok hr
   exact hf a _ _ b (hp _ _ a h h1) h2
 
-theorem sameTopo_withU {m m' : Map X} (st : SameTopo m m') (u0 : Array Bool) : SameTopo (withU m u0) (withU m' u0) :=
+theorem KeepsJ.sameTopo_withU {m m' : Map X} (st : SameTopo m m') (u0 : Array Bool) : SameTopo (withU m u0) (withU m' u0) :=
   ⟨st.n, st.b, rfl, st.asz, st.rsz⟩
 
-theorem of_attrOnly {p : P X α} (hp : AttrOnly p) : KeepsJ n u p := by
+theorem KeepsJ.of_attrOnly {p : P X α} (hp : AttrOnly p) : KeepsJ n u p := by
   intro m m' a h hr
   have st := hp m; rw [hr] at st
-  exact ⟨h.wf.sameTopo (sameTopo_withU st u), by rw [st.n]; exact h.n_eq, by rw [st.u]; exact h.usz⟩
+  exact ⟨h.wf.sameTopo (KeepsJ.sameTopo_withU st u), by rw [st.n]; exact h.n_eq, by rw [st.u]; exact h.usz⟩
 
-theorem of_readOnly {p : P X α} (hp : ReadOnly p) : KeepsJ n u p := of_attrOnly (AttrOnly.of_readOnly hp)
+theorem KeepsJ.of_readOnly {p : P X α} (hp : ReadOnly p) : KeepsJ n u p := KeepsJ.of_attrOnly (AttrOnly.of_readOnly hp)
 
-theorem ro_bind {p : P X α} {f : α → P X β} (hp : ReadOnly p) (hf : ∀ a, KeepsJ n u (f a)) :
-    KeepsJ n u (p.bind f) := bind (of_readOnly hp) hf
+theorem KeepsJ.ro_bind {p : P X α} {f : α → P X β} (hp : ReadOnly p) (hf : ∀ a, KeepsJ n u (f a)) :
+    KeepsJ n u (p.bind f) := KeepsJ.bind (KeepsJ.of_readOnly hp) hf
 
-theorem ite {c : Prop} [Decidable c] {p q : P X α} (hp : c → KeepsJ n u p) (hq : ¬ c → KeepsJ n u q) :
+theorem KeepsJ.ite {c : Prop} [Decidable c] {p q : P X α} (hp : c → KeepsJ n u p) (hq : ¬ c → KeepsJ n u q) :
     KeepsJ n u (if c then p else q) := by
   split
   · exact hp ‹_›
   · exact hq ‹_›
 
 /-- a β read returns an existing dart which, if non-null, was live when the kernel started -/
-theorem rB_bind {i d : Nat} {f : Nat → P X β}
+theorem KeepsJ.rB_bind {i d : Nat} {f : Nat → P X β}
     (hf : ∀ x, (x ≠ 0 → Live n u x) → KeepsJ n u (f x)) : KeepsJ n u ((rB i d).bind f) := by
   intro m m' b h hr
   obtain ⟨hok, hr⟩ := rB_ok hr
@@ -639,7 +639,7 @@ theorem rB_bind {i d : Nat} {f : Nat → P X β}
   have := live_image h.wf hid.1 hid.2 hne
   exact ⟨this.1, by rw [← h.n_eq]; exact this.2.1, this.2.2⟩
 
-theorem oneLinkCore {l r : Nat} (hl : Live n u l) (hr : Live n u r) :
+theorem KeepsJ.oneLinkCore {l r : Nat} (hl : Live n u l) (hr : Live n u r) :
     KeepsJ n u (HC.oneLinkCore (X := X) l r) := by
   intro m m' a h hrun
   obtain ⟨_, _, h1, h0, rfl⟩ := oneLinkCore_ok hrun
@@ -647,7 +647,7 @@ theorem oneLinkCore {l r : Nat} (hl : Live n u l) (hr : Live n u r) :
   have hr' := h.inUse hr
   exact ⟨h.wf.link1 (by omega) hl'.1 hr'.1 hl'.2.1 hr'.2.1 hl'.2.2 hr'.2.2 h1 h0, h.n_eq, h.usz⟩
 
-theorem twoLinkCore {l r : Nat} (hl : Live n u l) (hr : Live n u r) (hlr : l ≠ r) :
+theorem KeepsJ.twoLinkCore {l r : Nat} (hl : Live n u l) (hr : Live n u r) (hlr : l ≠ r) :
     KeepsJ n u (HC.iLinkCore (X := X) 2 l r) := by
   intro m m' a h hrun
   obtain ⟨_, _, h1, h0, rfl⟩ := iLinkCore_ok hrun
@@ -655,18 +655,18 @@ theorem twoLinkCore {l r : Nat} (hl : Live n u l) (hr : Live n u r) (hlr : l ≠
   have hr' := h.inUse hr
   exact ⟨h.wf.linkI (by omega) (by omega) hl'.1 hr'.1 hlr hl'.2.1 hr'.2.1 hl'.2.2 hr'.2.2 h1 h0, h.n_eq, h.usz⟩
 
-theorem oneUnlinkCore {l : Nat} (hl : Live n u l) : KeepsJ n u (HC.oneUnlinkCore (X := X) l) := by
+theorem KeepsJ.oneUnlinkCore {l : Nat} (hl : Live n u l) : KeepsJ n u (HC.oneUnlinkCore (X := X) l) := by
   intro m m' a h hrun
   obtain ⟨_, _, hne, rfl⟩ := oneUnlinkCore_ok hrun
   exact ⟨h.wf.unlink1 (by omega) (h.inUse hl).2.1 hne, h.n_eq, h.usz⟩
 
-theorem twoUnlinkCore {l : Nat} (hl : Live n u l) : KeepsJ n u (HC.iUnlinkCore (X := X) 2 l) := by
+theorem KeepsJ.twoUnlinkCore {l : Nat} (hl : Live n u l) : KeepsJ n u (HC.iUnlinkCore (X := X) 2 l) := by
   intro m m' a h hrun
   obtain ⟨_, _, hne, rfl⟩ := iUnlinkCore_ok hrun
   exact ⟨h.wf.unlinkI (by omega) (by omega) (h.inUse hl).2.1 hne, h.n_eq, h.usz⟩
 
 /-- flagging a dart never touches the map-with-original-flags -/
-theorem removeFreeDartTx (d : Nat) : KeepsJ n u (HC.removeFreeDartTx (X := X) d) := by
+theorem KeepsJ.removeFreeDartTx (d : Nat) : KeepsJ n u (HC.removeFreeDartTx (X := X) d) := by
   intro m m' a h hrun
   rw [run_removeFreeDartTx] at hrun
   by_cases hok : m.okU d = true
@@ -675,7 +675,7 @@ theorem removeFreeDartTx (d : Nat) : KeepsJ n u (HC.removeFreeDartTx (X := X) d)
     exact ⟨h.wf, h.n_eq, by show (wr m.u d true).size = n; rw [size_wr]; exact h.usz⟩
   · simp [hok] at hrun
 
-end KeepsJ
+end
 
 theorem keepsJ_oneSew2 (cfg : Cfg X) (k : Nat) {l r : Nat} (hl : Live n u l) (hr : Live n u r) :
     KeepsJ n u (oneSew2 cfg k l r) := by
@@ -1685,6 +1685,37 @@ theorem C15_D15d_witness :
     WF 3 cutGrid ∧ (run (vertexId2 31 26) cutGrid).1 = .ok 3 ∧ (run (vertexId2 31 27) cutGrid).1 = .ok 25 ∧
     cutGrid.β 1 26 = 27 ∧ cutGrid.att 0 3 = some (.pt 0 1 0) ∧ cutGrid.att 0 25 = some (.pt 1 (1/2) 0) ∧
     r.1 = .ok 3 ∧ r.2.att 0 3 = some (.pt (1/4) (7/8) 0) := by
+  decide +kernel
+
+/-- the 2 x 2 split grid (three vertices moved, all triangles positively oriented), fully anchored with a straight bottom
+    boundary, after `cut_outer_edge(7, [25, 26, 27])` and the re-anchoring of the bare half edge 27 (D15b) -/
+def flatGrid : Map Val :=
+  { (Map.empty 3 stdStorages 28 : Map Val) with
+    b := #[#[0, 3, 1, 2, 6, 4, 5, 9, 27, 25, 12, 10, 11, 15, 13, 14, 18, 16, 17, 21, 19, 20, 24, 22, 23, 7, 8, 26],
+           #[0, 2, 3, 1, 5, 6, 4, 25, 26, 7, 11, 12, 10, 14, 15, 13, 17, 18, 16, 20, 21, 19, 23, 24, 22, 9, 27, 8],
+           #[0, 0, 4, 0, 2, 9, 13, 0, 10, 5, 8, 0, 19, 6, 16, 0, 14, 21, 0, 12, 22, 17, 20, 0, 0, 26, 25, 0]]
+    a := ((((Map.empty 3 stdStorages 28 : Map Val).a.setIfInBounds 0
+      #[none, some (.pt 0 0 0), some (.pt (7/8) 0 0), some (.pt 0 (13/16) 0), none, none, some (.pt (15/16) (15/16) 0),
+        none, some (.pt 2 0 0), none, none, none, some (.pt 2 1 0), none, none, some (.pt 0 2 0), none, none,
+        some (.pt (19/16) 2 0), none, none, none, none, none, some (.pt 2 2 0), some (.pt (23/16) 0 0), none,
+        none]).setIfInBounds 6
+      #[none, tml 4, tml 1, tml 13, none, none, tml 2, none, tml 32, none, none, none, tml 5, none, none, tml 60, none,
+        none, tml 9, none, none, none, none, none, tml 96, tml 1, none, none, none]).setIfInBounds 7
+      #[none, tml 1, tml 2, tml 13, none, tml 2, tml 2, tml 1, tml 2, none, none, tml 5, tml 2, none, tml 2, tml 13, none,
+        tml 2, tml 9, none, tml 2, none, none, tml 5, tml 9, tml 2, none, tml 29, none]).setIfInBounds 8
+      #[none, tml 2, none, none, tml 2, none, none, tml 2, tml 2, none, tml 2, none, none, tml 2, none, none, tml 2, none,
+        none, tml 2, none, none, tml 2, none, none, none, none, none, none] }
+
+/-- **C15 (e), D15g**: `collapse_edge(5)` (from the boundary vertex `(7/8,0)` on curve 0 to the interior vertex
+    `(15/16,15/16)`: towards the boundary vertex) succeeds although it flattens the triangle 7-27-8, whose corners
+    `(7/8,0)`, `(23/16,0)`, `(2,0)` are collinear afterwards: `is_orbit_orientation_consistent` compares `signum()`s and
+    `f64::signum(+0.0) = 1.0` -/
+theorem C15_D15g_witness :
+    let r := run (collapseEdge (stdCfg 3 224) 28 5) flatGrid
+    WF 3 flatGrid ∧ r.1 = .ok 2 ∧ r.2.β 1 7 = 27 ∧ r.2.β 1 27 = 8 ∧ r.2.β 1 8 = 7 ∧
+    (run (vertexId2 28 7) r.2).1 = .ok 2 ∧ (run (vertexId2 28 27) r.2).1 = .ok 27 ∧ (run (vertexId2 28 8) r.2).1 = .ok 8 ∧
+    r.2.att 0 2 = some (.pt (7/8) 0 0) ∧ r.2.att 0 27 = some (.pt (23/16) 0 0) ∧ r.2.att 0 8 = some (.pt 2 0 0) ∧
+    cross ⟨7/8, 0⟩ ⟨23/16, 0⟩ ⟨2, 0⟩ = 0 := by
   decide +kernel
 
 /-! ## non-vacuity of the hypotheses -/
